@@ -27,7 +27,8 @@ SHRINK_BUDGET = {'quick': 60, 'thorough': 400}
 
 
 # suffixes from hist.judge_state_diff that already name one root cause (no bundle kinds appended)
-ROOT_CAUSE_SUFFIXES = ('cells:lookup-KeyError-stale', 'summary-rows-renumbered', 'cells:lookup-key-column-type-changed')
+ROOT_CAUSE_SUFFIXES = ('cells:lookup-KeyError-stale', 'summary-rows-renumbered', 'cells:lookup-key-column-type-changed',
+                       'cells:NameError-stale-after-table-restored')
 
 
 def strategy(tier):
